@@ -39,6 +39,7 @@ type c16entry struct {
 var c16files = []c16entry{
 	{"secret.txt", 1}, {"pub2/x.txt", 2}, {"pub/a.txt", 3}, {"pub/index.html", 4}, {"pub/sub/b.txt", 5}, {"pub/sub/index.html", 6},
 	{"pub/noindex/c.txt", 7}, {"pub/sp ace.txt", 8}, {"pub/static/d.txt", 9}, {"pub/alt/home.htm", 10},
+	{"pub/x", 11}, {"pub/2", 12}, // one-character names: a prefix look-alike "/staticx" leaves exactly "x" after the prefix
 }
 var c16dirs = []string{"pub/idxdir/index.html"}
 
@@ -204,7 +205,7 @@ func genC16(rng *rand.Rand, n int, tier string, emit func(*Sx)) {
 		if rng.Intn(2) == 0 {
 			real := []string{"/a.txt", "/sub/b.txt", "/sub", "/sub/", "/", "", "/noindex", "/noindex/", "/idxdir", "/idxdir/", "/alt/", "/alt", "/index.html",
 				"/sp ace.txt", "/static/d.txt", "/static", "/sub/index.html", "/../secret.txt", "/sub/../../secret.txt", "/../pub2/x.txt", "/sub/../a.txt",
-				"/./a.txt", "//a.txt", "/sub//b.txt", "/a.txt/", "/a.txt/..", "/sub/..", "/x/../a.txt"}
+				"/./a.txt", "//a.txt", "/sub//b.txt", "/a.txt/", "/a.txt/..", "/sub/..", "/x/../a.txt", "/x", "/2", "", ""}
 			sb.WriteString(real[rng.Intn(len(real))])
 		} else {
 			for k := rng.Intn(5); k > 0; k-- {
